@@ -51,6 +51,7 @@ type Engine struct {
 	verbose   bool
 	knownFindings []*KnownFinding
 	staleLoops    []string
+	heapTypes     map[string]types.Type // heap name -> Go type of the objects / elements it holds
 	globalInvs    []*GlobalInv
 	globalInit    map[types.Object]globalInitExpr
 }
@@ -68,6 +69,7 @@ func newEngine(repo string) *Engine {
 		havocked: map[string]bool{}, inlined: map[string]bool{}, dropped: map[string]int{},
 	}
 	e.typeByID = append(e.typeByID, nil) // id 0 = nil interface
+	e.lazySyms()
 	return e
 }
 
